@@ -35,7 +35,8 @@ def negated(cmd, prefix):
 
 
 class BlockDevice:
-    def __init__(self, tree_nodes, rules, prefix, exit_words):
+    def __init__(self, tree_nodes, rules, prefix, exit_words, strict_undo_redo=True):
+        self.strict_undo_redo = strict_undo_redo
         self.root = tree_nodes
         self.rules = rules  # top level list of RB.Rule
         self.prefix = prefix
@@ -68,6 +69,7 @@ class BlockDevice:
                 locals_, globals_ = s[2], s[3]
         cmd = path[-1]
         if cmd in self.exit_words:
+            self.log.append((path, "exit", None))
             return
         starts_neg = cmd.startswith(self.prefix + " ")
         direct = RB.select(cmd, locals_, globals_)
@@ -85,8 +87,10 @@ class BlockDevice:
             i = self._find(nodes, locals_, globals_, rule, key)
             if i is None:
                 nodes.append([cmd, []])
+                self.log.append((path, "create", nodes[-1]))
             else:
-                if rule.logic == "common.undo_redo" and nodes[i][0] != cmd:
+                self.log.append((path, "set", nodes[i]))
+                if self.strict_undo_redo and rule.logic == "common.undo_redo" and nodes[i][0] != cmd:
                     # what undo_redo is for: the device does not accept `key value2` over `key value1`
                     raise DeviceError("line %r cannot be overwritten by %r without removing it first (rule %r)" % (nodes[i][0], cmd, rule.pat))
                 kept = []
@@ -95,10 +99,12 @@ class BlockDevice:
                     if cs is not None and cs[0].rewrite:
                         continue
                     kept.append(ch)
-                nodes[i] = [cmd, kept]
+                nodes[i][0] = cmd  # same node object: the line keeps its identity, only its text changes
+                nodes[i][1][:] = kept
             return
         if action == "remove":
             i = self._find(nodes, locals_, globals_, neg[0], neg[1])
+            self.log.append((path, "remove", nodes[i] if i is not None else None))
             if i is not None:
                 del nodes[i]
             return
